@@ -23,7 +23,7 @@ def parse_edges(tlc_out):
     return edges
 
 
-def tours(edges, init, max_len=400, rng=None):
+def tours(edges, init, max_len=400, rng=None, strict=True):
     """Greedy edge cover: walk from `init`, always preferring an untaken edge, otherwise moving by a
     shortest path to the nearest state that still has one; start a new tour when max_len is reached
     or nothing is reachable.  Returns list of tours; a tour is a list of edge indices."""
@@ -80,4 +80,10 @@ def tours(edges, init, max_len=400, rng=None):
         if not tour:
             break   # remaining edges unreachable from init (should not happen for a TLC graph)
         result.append(tour)
+    if untaken and strict:
+        # a TLC graph is connected from its initial state; edges left over mean the state labels are not canonical
+        # (e.g. a function printed in construction order) and the "every edge" claim would be false
+        from . import tlc
+        raise tlc.ModelError("tours: %d of %d edges are unreachable from the initial state label (state labels not canonical?)"
+                             % (len(untaken), len(edges)))
     return result
